@@ -281,6 +281,12 @@ func c14Repair(r *Run, w *World, dc bool, lastRepairOK, failedSeen, recRestored,
 	}
 	premise := false
 	singular := false
+	lostBefore, genuineBefore := -1, false
+	if !w.Par1 {
+		tr0 := w.TruthPar2()
+		lostBefore = tr0.Scan.N - tr0.Scan.Upper
+		genuineBefore = tr0.RecoveryAllSnapshots && !tr0.RecoveryDamaged && tr0.IndexIntact
+	}
 	if w.Par1 {
 		tr := w.TruthPar1()
 		premise = tr.UnusableData <= len(tr.PresentVolumes) && len(tr.DamagedVolumes) == 0
@@ -323,6 +329,17 @@ func c14Repair(r *Run, w *World, dc bool, lastRepairOK, failedSeen, recRestored,
 			}
 			if cur, ok := w.Disk.Get(p); !ok || string(cur) != string(prev) {
 				r.Violate("failed-repair-worsened", "a failed Repair changed %s", p)
+			}
+		}
+		// with nothing but genuine recovery files around, a failed Repair
+		// must not make the set harder to repair either: the number of
+		// protected slices whose content exists nowhere any more must not
+		// grow (otherwise "repeated attempts as more recovery files
+		// arrive" would not converge)
+		if lostBefore >= 0 && genuineBefore {
+			tr1 := w.TruthPar2()
+			if lostAfter := tr1.Scan.N - tr1.Scan.Upper; lostAfter > lostBefore {
+				r.Violate("failed-repair-worsened", "a failed Repair (%s) destroyed protected content: %d slices existed nowhere before it, %d afterwards", rep.errString(), lostBefore, lostAfter)
 			}
 		}
 		if premise && !singular {
